@@ -237,6 +237,7 @@ func (conn *Conn) send(call *Call) {
 	}
 	vhook("c.register", conn, call, seq, vupgrade(call.upgrade))
 	conn.mutex.Unlock()
+	vhook("c.send.gate", conn, call, seq, 0)
 	ctx := Context{}
 	ctx.Seq = seq
 	ctx.upgrade = call.upgrade
